@@ -183,6 +183,8 @@ def e2e_part(name, profiles, pairs, tags, nontrivial, n_quick=120, n_thorough=12
                         bad += [("C01", m) for m in ur.ir_problems]
                         if imp in ("missing-injector", "no-output"):
                             bad.append(("C01", "no generated implementation for injector %s (%s)" % (ur.u.inj["name"], imp)))
+                    if "C12" in tags and "C02" not in tags:
+                        bad += [("C12", m) for m in ur.ir_problems if "struct" in m or "field" in m or "selection" in m]
                     if "C02" in tags:
                         bad += [("C02", m) for m in ur.ir_problems]
                         bad += [("C02", m) for m in planner.oracle_c02(ur.case, imp)]
@@ -502,13 +504,21 @@ register("C12",
          "a field pointer aliases the parent's field; non-trivial = request with >= 2 fields / accepted program with struct or field provider",
          [stream_part("C12", lambda tier: [("fields", "fields", ["-seed", seed(), "-n", 15000 if tier == "quick" else 200000])],
                       nontrivial=lambda case, im: len(case.get("raw", [])) >= 9),
-          e2e_part("C12", [("s", {"p_func": 0.25, "units": [1, 2]})], _pairs_c02, {"C12"}, _has(("struct", "field")),
+          e2e_part("C12", [("s", {"p_func": 0.25, "units": [1, 2]}),
+                           # many fields selected through pointers, value and pointer form of one field wanted by one consumer
+                           ("f", {"p_func": 0.45, "p_field": 0.5, "p_both_forms": 1.0, "units": [1, 2], "min_structs": 5, "max_structs": 9})],
+                   _pairs_c02, {"C12"}, _has(("struct", "field")),
                    n_quick=90, n_thorough=900)])
 
 
 def _c13_part(rep, tier):
     from . import c13tier
     return c13tier.run_c13(rep, tier)
+
+
+def _c13_pairs(rep, tier):
+    from . import c13tier
+    return c13tier.run_pairs(rep, tier)
 
 
 register("C13",
@@ -518,8 +528,10 @@ register("C13",
          "builtins, receives, function literals; interface-typed expressions; unexported identifiers) written in the injector's "
          "package and in a provider set of another package; verdict compared with WireV.processValueOk over the regenerated "
          "whitelist; accepted ones are compiled and run: value = home evaluation, same value/pointer on every call, no function ran; "
-         "non-trivial = each type-correct (expression, place) pair",
-         [_c13_part])
+         "random nested expressions with the unsafe part at any position; a package with several injectors whose value "
+         "expressions have one type and differ only inside literal braces / only in the package they were written in: every "
+         "injector must return the value of its own expression; non-trivial = each type-correct (expression, place) pair",
+         [_c13_part, _c13_pairs])
 
 
 def _c15_part(rep, tier):
@@ -642,7 +654,10 @@ register("C11",
           e2e_part("C11", [("b", {"units": [1, 2]}),
                            # injectors whose interface result is bound to one of several arguments implementing it
                            ("r", {"p_extra_params": 0.95, "max_structs": 4, "units": [2, 3], "p_func": 0.2, "p_iface_root": 0.9,
-                                  "p_iface_arg": 0.6, "p_conc_arg": 0.8, "p_twin": 0.0})], _pairs_c02, {"C11"},
+                                  "p_iface_arg": 0.6, "p_conc_arg": 0.8, "p_twin": 0.0}),
+                           # interfaces bound to the pointer-to-field type that FieldsOf through a pointer provides
+                           ("p", {"units": [1, 2], "p_bind_fieldptr": 0.9, "p_field": 0.3, "min_structs": 4, "max_structs": 8})],
+                   _pairs_c02, {"C11"},
                    lambda ur: any(it["kind"] == "bind" for it in ur.u.items) and (ur.impl or "").startswith("ok"),
                    n_quick=120, n_thorough=1000),
           _c11_matrix])
